@@ -137,6 +137,8 @@ impl GenerationCache {
             return_type: &'a str,
             is_async: bool,
             channels: Vec<ChannelHashData<'a>>,
+            // #[serde(rename_all = "...")] on the command changes the parameter keys
+            serde_rename_all: Option<String>,
         }
 
         #[derive(Serialize)]
@@ -144,6 +146,7 @@ impl GenerationCache {
             name: &'a str,
             rust_type: &'a str,
             is_optional: bool,
+            serde_rename: Option<&'a str>,
         }
 
         #[derive(Serialize)]
@@ -164,6 +167,7 @@ impl GenerationCache {
                         name: &p.name,
                         rust_type: &p.rust_type,
                         is_optional: p.is_optional,
+                        serde_rename: p.serde_rename.as_deref(),
                     })
                     .collect(),
                 return_type: &cmd.return_type,
@@ -176,6 +180,7 @@ impl GenerationCache {
                         message_type: &c.message_type,
                     })
                     .collect(),
+                serde_rename_all: cmd.serde_rename_all.as_ref().map(|r| format!("{:?}", r)),
             })
             .collect();
 
@@ -191,6 +196,8 @@ impl GenerationCache {
             file_path: &'a str,
             is_enum: bool,
             fields: Vec<FieldHashData<'a>>,
+            // #[serde(rename_all = "...")] changes every property key / enum literal
+            serde_rename_all: Option<String>,
         }
 
         #[derive(Serialize)]
@@ -199,6 +206,9 @@ impl GenerationCache {
             rust_type: &'a str,
             is_optional: bool,
             is_public: bool,
+            // #[serde(rename = "...")] and #[validate(...)] end up in the generated text
+            serde_rename: Option<&'a str>,
+            validator_attributes: Option<&'a crate::models::ValidatorAttributes>,
         }
 
         // Sort by name for deterministic ordering
@@ -219,8 +229,11 @@ impl GenerationCache {
                         rust_type: &f.rust_type,
                         is_optional: f.is_optional,
                         is_public: f.is_public,
+                        serde_rename: f.serde_rename.as_deref(),
+                        validator_attributes: f.validator_attributes.as_ref(),
                     })
                     .collect(),
+                serde_rename_all: s.serde_rename_all.as_ref().map(|r| format!("{:?}", r)),
             })
             .collect();
 
